@@ -261,10 +261,13 @@ func init() {
 		"os.Open":           extOsOpen,
 		"(*os.File).Read":   extFileRead,
 		"(*os.File).Close":  func(fr *frame, args []value) value { return iface{} },
-		// writes to os.Stdout/os.Stderr (diagnostics) are discarded
-		"(*os.File).Write": func(fr *frame, args []value) value {
-			return tuple{fr.i.b.BV(SBV64, uint64(len(args[1].([]value)))), iface{}}
-		},
+		"os.Create":         extOsCreate,
+		"os.MkdirAll":       func(fr *frame, args []value) value { return iface{} },
+		"os.Remove":         extOsRemove,
+		"(*os.File).Name":   extFileName,
+		// writes to a file made by os.Create go to the file registry; writes to
+		// os.Stdout/os.Stderr (diagnostics) are discarded
+		"(*os.File).Write": extFileWrite,
 		"(*os.File).WriteString": func(fr *frame, args []value) value {
 			return tuple{fr.i.b.BV(SBV64, uint64(strLen(args[1]))), iface{}}
 		},
@@ -1120,6 +1123,60 @@ func (i *interpreter) mkError(msg value) value {
 type simFile struct {
 	content []value
 	pos     int
+	path    value // set for files made by os.Create
+}
+
+func extOsCreate(fr *frame, args []value) value {
+	i := fr.i
+	ex := i.ex
+	ex.run.noteStub("os.Create/MkdirAll/Remove/(*os.File).Write: an in-memory file registry shared with vndFile (directories and permissions are not modelled)")
+	if ex.files == nil {
+		ex.files = i.makeMap(types.Typ[types.String])
+	}
+	i.mapInsert(ex.files, args[0], []value{})
+	var cell value = native{&simFile{path: args[0]}}
+	return tuple{&cell, iface{}}
+}
+
+func extOsRemove(fr *frame, args []value) value {
+	i := fr.i
+	ex := i.ex
+	if ex.files != nil {
+		if e := i.mapFind(ex.files, args[0]); e != nil {
+			i.mapDelete(ex.files, args[0])
+			return iface{}
+		}
+	}
+	return i.mkError(i.strConcat("remove ", i.strConcat(args[0], ": no such file or directory")))
+}
+
+func extFileName(fr *frame, args []value) value {
+	p := args[0].(*value)
+	if p != nil {
+		if n, ok := (*p).(native); ok {
+			if f, ok := n.v.(*simFile); ok && f.path != nil {
+				return f.path
+			}
+		}
+	}
+	fr.i.unsupported("(*os.File).Name of a file that was not made by os.Create")
+	return nil
+}
+
+func extFileWrite(fr *frame, args []value) value {
+	i := fr.i
+	buf := args[1].([]value)
+	if p := args[0].(*value); p != nil {
+		if n, ok := (*p).(native); ok {
+			if f, ok := n.v.(*simFile); ok && f.path != nil && i.ex.files != nil {
+				if e := i.mapFind(i.ex.files, f.path); e != nil {
+					old := e.val.([]value)
+					i.mapInsert(i.ex.files, f.path, append(append([]value(nil), old...), buf...))
+				}
+			}
+		}
+	}
+	return tuple{i.b.BV(SBV64, uint64(len(buf))), iface{}}
 }
 
 func extOsOpen(fr *frame, args []value) value {
